@@ -32,7 +32,10 @@ SPECS = {
                  'new Service, background chain spend) over k<=4 simulated providers whose every invocation outcome is drawn '
                  'from {ok, raise(5 exception types), False, empty, malformed, stale view, slow/timeout}; followed (p=0.35 quick) '
                  'by one exhaustively enumerated slice (all {ok,raise,False,empty}^k outcome assignments x all k! priority orders '
-                 'for one method) and a fault-free liveness phase. A run is non-trivial when it executed >= 5 Service queries of '
+                 'for one method) and a fault-free liveness phase. Besides the failover and no-fabrication oracles per query: a block '
+                 'count served without a provider execution is no older than the documented life times; the cache part of '
+                 'gettransactions(after_txid=X) is the run of the stored history after X (honest-view runs); successful queries are '
+                 'replayed with every provider down and compared with the stored answers. A run is non-trivial when it executed >= 5 Service queries of '
                  'which >= 1 returned data; distinct = distinct event-log digests.'),
         'state_measure': 'distinct (method, tuple of provider outcome kinds in call order, returned?, #untried providers) per _provider_execute execution',
         'components': {'real': REAL, 'stub': ['provider client classes (simkit.providers.SimClient*, subclasses of the real BaseClient)'] + STUB_COMMON,
@@ -131,10 +134,10 @@ SPECS = {
             },
         }],
         'rule': ('one run = one seeded history of 10-36 key operations (new_key / new_key_change / get_key / get_key_change, bulk '
-                 'get_keys / new_keys, explicit key_for_path / address_index, new_account, keys of another witness type in the same '
+                 'get_keys / new_keys, explicit key_for_path / address_index, new_account, switching the default account, import of an unrelated key, keys of another witness type in the same '
                  'wallet, scan with funded gaps, mark-used, reopen / second handle / drop / gc, rebuild in a new database from the '
                  'same master material with permuted cosigner keys, watch-only wallet from the exported account xpub) on HD, '
-                 'single-key, multisig and watch-only wallets over 5 networks x 3 witness types, with commit-failure and crash faults; '
+                 'single-key, multisig and watch-only wallets (HD wallets from extended keys and from BIP39 sentences with / without passphrase) over 5 networks x 3 witness types, with commit-failure and crash faults; '
                  'every returned and listed key is compared with reference BIP32 derivation at the documented path. Non-trivial: '
                  '>= 5 operations and >= 1 successful library call; distinct = distinct event-log digests.'),
         'state_measure': 'n/a (digests only)',
@@ -259,13 +262,13 @@ SPECS = {
                 'thorough': {'runs': 2000, 'budget_s': 300, 'run_timeout_s': 180, 'shrink_budget_s': 120, 'params': {'arm': 'storage'}},
             },
         }],
-        'rule': ('(arm storage_pw = arm storage with the key given as DB_FIELD_ENCRYPTION_PASSWORD) objects arm: one run = 1-3 subjects (Key, HDKey master / child of every witness type, private HD Wallet) and 5-14 '
+        'rule': ('objects arm: one run = 1-3 subjects (Key, HDKey master / child of every witness type, private HD Wallet opened on the master key or on the account-level private key) and 5-14 '
                  'rounds of [0-4 priming calls drawn in any order: wif / wif_key / wif_private / as_dict(include_private) / info / '
                  'deepcopy / pickle / subkey / public_master(as_private) / ...] followed by the public views (public(), '
                  'public_master(), wif_public(), Wallet.wif(is_private=False), WalletKey.public(), default as_dict / as_json / repr / '
                  'str / info, watch-only wallet from the export); storage arm (field encryption on): one run = a wallet history '
                  '(keys, fund, update, send, reopen, crash) with scans of the database file and journal at commit points, after '
-                 'crashes and reopening. Non-trivial: >= 4 operations and >= 2 successful; distinct = distinct event-log digests.'),
+                 'crashes and reopening; arm storage_pw is the storage arm with the key given as DB_FIELD_ENCRYPTION_PASSWORD. Non-trivial: >= 4 operations and >= 2 successful; distinct = distinct event-log digests.'),
         'state_measure': 'n/a (digests only)',
         'components': {'real': WALLET_REAL + ['bitcoinlib.db EncryptedBinary / EncryptedString (pycryptodome AES)'],
                        'stub': WALLET_STUB},
